@@ -1252,6 +1252,140 @@ fn replay_room_mutation(sc: &Value) -> Value {
     }
 }
 
+// ---- C07: room definitions received from a peer
+fn c07_user_node(keys: &mut Keys, id: &str, key: &str, enabled: bool, mdate: i64, author: &str) -> crate::database::room_node::UserNode {
+    let json = user_json(keys, key, enabled);
+    crate::database::room_node::UserNode {
+        node: Node { id: uid(id), room_id: None, cdate: mdate, mdate, _entity: "0.2".to_string(), _json: Some(json), _binary: None,
+                     verifying_key: keys.vk(author), _signature: vec![], _local_id: None },
+    }
+}
+fn c07_right_node(keys: &mut Keys, id: &str, ent: &str, ms: bool, ma: bool, mdate: i64, author: &str) -> crate::database::room_node::EntityRightNode {
+    let json = format!("{{\"32\":\"{}\",\"33\":{},\"34\":{}}}", ent, ms, ma);
+    crate::database::room_node::EntityRightNode {
+        node: Node { id: uid(id), room_id: None, cdate: mdate, mdate, _entity: "0.3".to_string(), _json: Some(json), _binary: None,
+                     verifying_key: keys.vk(author), _signature: vec![], _local_id: None },
+    }
+}
+fn c07_edge(keys: &mut Keys, src: Uid, se: &str, label: &str, dest: Uid, cdate: i64, author: &str) -> Edge {
+    Edge { src, src_entity: se.to_string(), label: label.to_string(), dest, cdate, verifying_key: keys.vk(author), signature: vec![] }
+}
+fn c07_room_node(sc: &Value, keys: &mut Keys) -> crate::database::room_node::RoomNode {
+    use crate::database::room_node::{AuthorisationNode, RoomNode};
+    let r = &sc["room"];
+    let rid = uid(r["id"].as_str().unwrap());
+    let admin = sc["admin"].as_str().unwrap_or("K1");
+    let mut admin_edges = vec![];
+    let mut admin_nodes = vec![];
+    for (n, a) in r["admins"].as_array().unwrap().iter().enumerate() {
+        let id = format!("adm{}", n);
+        admin_nodes.push(c07_user_node(keys, &id, a[0].as_str().unwrap(), b(&a[2]), i(&a[1]), admin));
+        admin_edges.push(c07_edge(keys, rid, "0.0", "32", uid(&id), i(&a[1]), admin));
+    }
+    let g = &r["groups"][0];
+    let gid = uid(g["id"].as_str().unwrap());
+    let gdate = i(&r["admins"][0][1]);
+    let mut an = AuthorisationNode {
+        node: Node { id: gid, room_id: None, cdate: gdate, mdate: gdate, _entity: "0.1".to_string(), _json: Some("{}".to_string()), _binary: None,
+                     verifying_key: keys.vk(admin), _signature: vec![], _local_id: None },
+        last_modified: gdate, right_edges: vec![], right_nodes: vec![], user_edges: vec![], user_nodes: vec![], user_admin_edges: vec![], user_admin_nodes: vec![],
+        need_update: true,
+    };
+    for (n, x) in g["rights"].as_array().unwrap().iter().enumerate() {
+        let id = format!("g0_right{}", n);
+        an.right_nodes.push(c07_right_node(keys, &id, x[0].as_str().unwrap(), b(&x[2]), b(&x[3]), i(&x[1]), admin));
+        an.right_edges.push(c07_edge(keys, gid, "0.1", "33", uid(&id), i(&x[1]), admin));
+    }
+    for (n, x) in g["users"].as_array().unwrap().iter().enumerate() {
+        let id = format!("g0_user{}", n);
+        an.user_nodes.push(c07_user_node(keys, &id, x[0].as_str().unwrap(), b(&x[2]), i(&x[1]), admin));
+        an.user_edges.push(c07_edge(keys, gid, "0.1", "34", uid(&id), i(&x[1]), admin));
+    }
+    for (n, x) in g["user_admins"].as_array().unwrap().iter().enumerate() {
+        let id = format!("g0_user_admin{}", n);
+        an.user_admin_nodes.push(c07_user_node(keys, &id, x[0].as_str().unwrap(), b(&x[2]), i(&x[1]), admin));
+        an.user_admin_edges.push(c07_edge(keys, gid, "0.1", "35", uid(&id), i(&x[1]), admin));
+    }
+    RoomNode {
+        node: Node { id: rid, room_id: None, cdate: gdate, mdate: gdate, _entity: "0.0".to_string(), _json: Some("{}".to_string()), _binary: None,
+                     verifying_key: keys.vk(admin), _signature: vec![], _local_id: None },
+        last_modified: gdate,
+        admin_edges, admin_nodes,
+        auth_edges: vec![c07_edge(keys, rid, "0.0", "33", gid, gdate, admin)],
+        auth_nodes: vec![an],
+    }
+}
+fn replay_room_node_merge(sc: &Value) -> Value {
+    let mut keys = Keys::new();
+    let old = c07_room_node(sc, &mut keys);
+    let mut ra = RoomAuthorisations { signing_key: Ed25519SigningKey::create_from(blake3::hash(sc["admin"].as_str().unwrap_or("K1").as_bytes()).as_bytes()), rooms: HashMap::new(), max_node_size: 1 << 20 };
+    let first_seen = sc["part"].as_str().unwrap() == "new_room";
+    if !first_seen {
+        match old.parse() {
+            Ok(r) => ra.add_room(r),
+            Err(e) => return json!({"status": "precondition", "detail": format!("{}", e)}),
+        }
+    }
+    let mut cand = old.clone();
+    let place = sc["shape"]["place"].as_str().unwrap_or("");
+    if let Some(ex) = sc.get("extra").filter(|e| !e.is_null()) {
+        let source = sc["shape"]["source"].as_str().unwrap_or("fresh");
+        let rid = cand.node.id;
+        let gid = cand.auth_nodes[0].node.id;
+        // the extra row: fresh, or an existing row of another list replayed unchanged
+        let (unode, rnode) = if source == "fresh" {
+            if place == "right" {
+                (None, Some(c07_right_node(&mut keys, "xrow", ex["entity"].as_str().unwrap(), b(&ex["mutate_self"]), b(&ex["mutate_all"]), i(&ex["date"]), ex["author"].as_str().unwrap())))
+            } else {
+                (Some(c07_user_node(&mut keys, "xrow", ex["key"].as_str().unwrap(), b(&ex["enabled"]), i(&ex["date"]), ex["author"].as_str().unwrap())), None)
+            }
+        } else {
+            let n = match source {
+                "admin_row" => old.admin_nodes[0].clone(),
+                "user_row" => old.auth_nodes[0].user_nodes[0].clone(),
+                _ => old.auth_nodes[0].user_admin_nodes[0].clone(),
+            };
+            (Some(n), None)
+        };
+        let row_id = unode.as_ref().map(|n| n.node.id).or(rnode.as_ref().map(|n| n.node.id)).unwrap();
+        let esrc = if ex["edge_src"].as_str().unwrap().starts_with("R1") { rid } else { gid };
+        // ids are written by the checks as the row name padded with dots
+        let edest = uid(ex["edge_dest"].as_str().unwrap_or("elsewhere").trim_end_matches('.'));
+        let _ = row_id;
+        let edge = c07_edge(&mut keys, esrc, "x", ex["edge_label"].as_str().unwrap(), edest, i(&ex["edge_date"]), ex["edge_author"].as_str().unwrap());
+        match place {
+            "admin" => { cand.admin_edges.push(edge); cand.admin_nodes.push(unode.unwrap()); }
+            "user" => { cand.auth_nodes[0].user_edges.push(edge); cand.auth_nodes[0].user_nodes.push(unode.unwrap()); }
+            "user_admin" => { cand.auth_nodes[0].user_admin_edges.push(edge); cand.auth_nodes[0].user_admin_nodes.push(unode.unwrap()); }
+            _ => { cand.auth_nodes[0].right_edges.push(edge); cand.auth_nodes[0].right_nodes.push(rnode.unwrap()); }
+        }
+    }
+    if let Some(sy) = sc.get("sym").filter(|e| !e.is_null()) {
+        let ra_ = keys.vk(sy["row_author"].as_str().unwrap());
+        let ea_ = keys.vk(sy["edge_author"].as_str().unwrap());
+        match place {
+            "admin" => { cand.admin_nodes[0].node.verifying_key = ra_; cand.admin_edges[0].verifying_key = ea_; cand.admin_edges[0].cdate = i(&sy["edge_date"]); }
+            "user" => { cand.auth_nodes[0].user_nodes[0].node.verifying_key = ra_; cand.auth_nodes[0].user_edges[0].verifying_key = ea_; }
+            "user_admin" => { cand.auth_nodes[0].user_admin_nodes[0].node.verifying_key = ra_; cand.auth_nodes[0].user_admin_edges[0].verifying_key = ea_; }
+            _ => { cand.auth_nodes[0].right_nodes[0].node.verifying_key = ra_; cand.auth_nodes[0].right_edges[0].verifying_key = ea_; }
+        }
+    }
+    let res = ra.prepare_room_node(if first_seen { None } else { Some(old) }, &mut cand);
+    match res {
+        Ok(changed) => {
+            let parsed = cand.parse();
+            let mut admins_now: Vec<String> = vec![];
+            if let Ok(room) = &parsed {
+                for k in ["K1kkkkkkkkkkkkkkkkkkkkkkkkkkkkkkk", "K2kkkkkkkkkkkkkkkkkkkkkkkkkkkkkkk", "K3kkkkkkkkkkkkkkkkkkkkkkkkkkkkkkk"] {
+                    if room.is_admin(&keys.vk(k), i64::MAX) { admins_now.push(k[..2].to_string()); }
+                }
+            }
+            json!({"status": "done", "result": "Ok", "changed": changed, "parses": parsed.is_ok(), "admins_at_end_of_time": admins_now})
+        }
+        Err(e) => json!({"status": "done", "result": "Err", "error": format!("{}", e)}),
+    }
+}
+
 pub fn dispatch(sc: &Value) -> Value {
     match sc["kind"].as_str().unwrap_or("") {
         "entity_mutation" => replay_entity_mutation(sc),
@@ -1260,6 +1394,7 @@ pub fn dispatch(sc: &Value) -> Value {
         "c12_mutation" => replay_c12_mutation(sc),
         "daily_marks" => replay_daily_marks(sc),
         "bytes_decoder" => replay_bytes_decoder(sc),
+        "room_node_merge" => replay_room_node_merge(sc),
         "room_mutation" => replay_room_mutation(sc),
         "date_fn" => {
             let d = i(&sc["date"]);
